@@ -16,6 +16,29 @@ using ccl::object::Factory;
 
 namespace ccl::rslang {
 
+//! Restores the value a variable slot had before a binder re-used it
+/*
+  Note: variables are stored by name. After normalization a binder can sit
+  inside the scope of another variable of the same name (the copied domain
+  of an enumerated declaration), so every binder puts the outer value back.
+*/
+class SlotGuard {
+  std::vector<StructuredData>& slots;
+  uint32_t slot;
+  StructuredData saved;
+
+public:
+  SlotGuard(std::vector<StructuredData>& slots, const uint32_t slot)
+    : slots{ slots }, slot{ slot }, saved{ slots.at(slot) } {}
+  ~SlotGuard() {
+    slots.at(slot) = std::move(saved);
+  }
+  SlotGuard(const SlotGuard&) = delete;
+  SlotGuard& operator=(const SlotGuard&) = delete;
+  SlotGuard(SlotGuard&&) = delete;
+  SlotGuard& operator=(SlotGuard&&) = delete;
+};
+
 class ASTInterpreter::ImpEvaluator {
 public:
   ImpEvaluator(ASTInterpreter& parent, const Cursor imperative)
@@ -35,6 +58,7 @@ private:
   const Cursor imperative;
 
   std::vector<BlockMeta> metaData{};
+  std::vector<std::unique_ptr<SlotGuard>> outerValues{};
   std::stack<Index> blockStack{};
   std::stack<object::SDIterator> iterStack{};
   Index current{ 0 };
@@ -76,10 +100,12 @@ private:
       switch (newBlock.rootID) {
       case TokenID::ITERATE: {
         newBlock.arg = *begin(parent.nodeVars[iter.Child(0).get()]);
+        outerValues.emplace_back(std::make_unique<SlotGuard>(parent.idsData, newBlock.arg));
         break;
       }
       case TokenID::ASSIGN: {
         newBlock.arg = *begin(parent.nodeVars[iter.Child(0).get()]);
+        outerValues.emplace_back(std::make_unique<SlotGuard>(parent.idsData, newBlock.arg));
         break;
       }
       default: break;
@@ -292,6 +318,7 @@ bool ASTInterpreter::ViQuantifier(Cursor iter) {
   }
 
   const auto varID = *begin(nodeVars[iter.Child(0).get()]);
+  const SlotGuard guard{ idsData, varID };
   const auto isUniversal = iter->id == TokenID::FORALL;
   for (const auto& child : domain->B()) {
     if (++iterationCounter > MAX_ITERATIONS) {
@@ -402,6 +429,7 @@ bool ASTInterpreter::ViDeclarative(Cursor iter) {
     return false;
   }
   const auto varID = *begin(nodeVars[iter.Child(0).get()]);
+  const SlotGuard guard{ idsData, varID };
   auto result = Factory::EmptySet();
   for (const auto& child : setDomain->B()) {
     if (++iterationCounter > MAX_ITERATIONS) {
@@ -438,6 +466,7 @@ bool ASTInterpreter::ViRecursion(Cursor iter) {
     return false;
   }
   const auto varID = *begin(nodeVars[iter.Child(0).get()]);
+  const SlotGuard guard{ idsData, varID };
   StructuredData current = initial.value();
   do {
     if (++iterationCounter > MAX_ITERATIONS) {
